@@ -1236,7 +1236,11 @@ def _check_dft(case, ctx, F, x, xv, xin, X, n, pos, ndim, axarg, rng):
         ctx.label("dft_kscale_subset")
     inputs = [("real", xin, x, np.fft.rfft(x, axis=pos) if kscale is None else np.take(X, kscale, axis=pos))]
     if case["cplx"] and dt != "i2":
-        xc = x + 1j * rng.standard_normal(x.shape)
+        # the unit of the samples is the caller's: volts, microvolts, a normalised spectrum (1e-12 .. 1e6); a complex signal
+        # stays complex however small its numbers are
+        cscale = case.get("cscale") or [1.0, 1.0, 1e-9, 1e-12, 1e6, 1e-7][int(case["seed"]) % 6]
+        ctx.label("dft_complex_scale_%g" % cscale)
+        xc = (x + 1j * rng.standard_normal(x.shape)) * cscale
         xcv = xc.astype(np.complex64) if dt == "f4" else xc
         xc = xcv.astype(np.complex128)
         Xc = np.fft.fft(xc, axis=pos)
